@@ -1142,7 +1142,7 @@ fn classify(c: &GenCase, r: &CaseResult, f: &Finding) -> Option<String> {
     None
 }
 
-const RULE: &str = "enums (1..5 variants: unit, empty tuple/brace, one field, 2..3 fields, tuple or named, raw idents; with/without own attribute, own attribute substitutable or not; rename_all on enum/variant) deriving one of the 8 Display-like traits x enum-level format in 4 modes: wrapping (1..3 mentions of `_variant` as `{_variant}`, positional argument, `alias = _variant`, mixed with text, escapes and references to fields common to all variants incl. expressions), default (no `_variant`; fields common to the attribute-less variants), bare `_variant` only, none; the word `_variant` as plain text / inside escaped braces (not a mention); `self` in the enum-level arguments; the enum optionally generic over the type of some fields (`T<G>`, referred to directly only), rename_all written before the enum-level format, an enum-level bound(..) attribute, a variant with own format and own rename_all. Oracle inside the program: own(v) = own attribute via format! | single field under the derived trait | (renamed) name; expected = format!(SHARED, .., _variant = own(v)) when `_variant` is mentioned, else SHARED for attribute-less variants and own(v) for the others; byte-equal to the derived output for one value per variant. Negative cases: `_variant` placeholder with any spec / non-Display type (systematic single-modifier table x 3 forms x 2 traits, plus random multi-modifier specs on generated enums) and enum-level format on derive_more::Debug must be rejected by the compiler; in-process screen of the full spec grid with rustc confirmation. Non-trivial = enum has a variant with and one without own attribute and the enum-level literal has text besides placeholders (or a negative case); distinct by program text";
+const RULE: &str = "enums (1..5 variants: unit, empty tuple/brace, one field, 2..3 fields, tuple or named, raw idents; with/without own attribute, own attribute substitutable or not; rename_all on enum/variant) deriving one of the 8 Display-like traits x enum-level format in 4 modes: wrapping (1..3 mentions of `_variant` as `{_variant}`, positional argument, `alias = _variant`, mixed with text, escapes and references to fields common to all variants incl. expressions), default (no `_variant`; fields common to the attribute-less variants; also a literal that is exactly one bare placeholder of the derived trait over a non-field argument), bare `_variant` only, none; the word `_variant` as plain text / inside escaped braces (not a mention); `self` in the enum-level arguments; the enum optionally generic over the type of some fields (`T<G>`, referred to directly only), rename_all written before the enum-level format, an enum-level bound(..) attribute, a variant with own format and own rename_all. Oracle inside the program: own(v) = own attribute via format! | single field under the derived trait | (renamed) name; expected = format!(SHARED, .., _variant = own(v)) when `_variant` is mentioned, else SHARED for attribute-less variants and own(v) for the others; byte-equal to the derived output for one value per variant. Negative cases: `_variant` placeholder with any spec / non-Display type (systematic single-modifier table x 3 forms x 2 traits, plus random multi-modifier specs on generated enums) and enum-level format on derive_more::Debug must be rejected by the compiler; in-process screen of the full spec grid with rustc confirmation. Non-trivial = enum has a variant with and one without own attribute and the enum-level literal has text besides placeholders (or a negative case); distinct by program text";
 
 pub fn prop() -> DiceProp {
     DiceProp {
